@@ -36,7 +36,7 @@ META = {
     'components_real': ['TapeRecorder', 'find_matching_recording_ids', 'in-memory / file / S3 cassettes'],
     'components_stub': ['clock (virtual, advanced by the workload)', 'S3 bucket', 'service and environment'],
     'budgets': {'quick': {'seconds': 30}, 'thorough': {'seconds': 480}},
-    'required_probes': {'thorough': ['interrupt_inside_body', 'interrupt_after_outputs', 'exception_after_outputs', 'class_level_operation',
+    'required_probes': {'thorough': ['recording_disabled_while_in_flight', 'interrupt_inside_body', 'interrupt_after_outputs', 'exception_after_outputs', 'class_level_operation',
                                      'extractor_failed', 'lookup_separated_incomplete', 'earlier_run_of_same_operation', 'subclass_of_decorated_base', 'invoked_while_handling_an_exception']},
 }
 
@@ -92,6 +92,11 @@ def _run(tape, clock):
     elif tape.draw(5) == 4:
         spec.body.append(['raise', R.D.ErrA])
         placed = 'raise_at_end'
+    if tape.draw(6) == 5:
+        # recording is switched off (by an operator, from another thread) while the operation is in flight: whatever is
+        # saved for this run must still tell the truth about how it ended
+        spec.body.insert(tape.draw(len(spec.body) + 1), ['disable'])
+        run.probe('recording_disabled_while_in_flight')
     add_sleeps(tape, spec)
     store = C.gen_store(tape, clock, kinds=['memory', 'memory', 'file', 's3'])
     if spec.op.kind == 'class':
